@@ -81,9 +81,14 @@ def callS : CallOut → Sexp
   | .badResponse => .list [.atom "call", .atom "badresponse"]
   | .ran g kw rr => .list [.atom "call", .list [.atom "ran", sxn g, kwS kw, sxb rr]]
 
+/-- what a caller of Home Assistant sees: `hass.services` looks names up lower-cased, in its own table -/
+def haView (r : Reg) : Reg := { r with handler := r.ha }
+
+/-- the observation columns: has / handler / response mode are Home Assistant's (`hass.services`, name lower-cased), count
+and owner are `Function.service_cnt[k]` / `service2global_ctx[k]` for the name as given -/
 def stateS (univ : List Svc) (st : MState) : Sexp :=
   .list ([.atom "state"] ++ univ.map (fun k =>
-    match PsModel.C16.aget k st.reg.handler with
+    match PsModel.C16.aget (lower k) st.reg.ha with
     | some h => Sexp.list [.atom k, sxb true, sxn (cntOf st.reg k), .atom (ownerS (PsModel.C16.aget k st.reg.owner)), sxn h.gen,
                            .atom (respS h.resp)]
     | none => Sexp.list [.atom k, sxb false, sxn (cntOf st.reg k), .atom (ownerS (PsModel.C16.aget k st.reg.owner)), .atom "-",
@@ -110,14 +115,17 @@ def runM (cfg : Cfg) (sigs : List (Nat × Sig)) (univ : List Svc) : MState → L
   | _, [] => []
   | st, .life op :: r => runM cfg sigs univ (step cfg st op) r
   | st, .obs :: r => stateS univ st :: runM cfg sigs univ st r
-  | st, .call k rr cv d :: r => callS (bound sigs <| callOutcome cfg st.reg k cv d rr) :: runM cfg sigs univ st r
-  | st, .scall k rr cv d :: r => callS (bound sigs <| scriptCallOutcome cfg st.reg k cv d rr) :: runM cfg sigs univ st r
+  | st, .call k rr cv d :: r =>
+    callS (bound sigs <| callOutcome cfg (haView st.reg) (lower k) cv d rr) :: runM cfg sigs univ st r
+  | st, .scall k rr cv d :: r =>
+    callS (bound sigs <| scriptCallOutcome cfg (haView st.reg) (lower k) cv d rr) :: runM cfg sigs univ st r
   | st, .calls k rr cv ds :: r =>
-    .list (.atom "calls" :: (overlapOutcome cfg st.reg k cv ds rr).map (fun o => callS (bound sigs o))) :: runM cfg sigs univ st r
+    .list (.atom "calls" :: (overlapOutcome cfg (haView st.reg) (lower k) cv ds rr).map (fun o => callS (bound sigs o))) ::
+      runM cfg sigs univ st r
 
 def runS (sigs : List (Nat × Sig)) (univ : List Svc) : SState → List DOp → List Sexp
   | _, [] => []
-  | s, .life op :: r => runS sigs univ (sStep s op) r
+  | s, .life op :: r => runS sigs univ (sStep s (lowOp op)) r
   | s, .obs :: r => sstateS univ s :: runS sigs univ s r
   | s, .call k rr cv d :: r => callS (bound sigs <| sCall s k cv d rr) :: runS sigs univ s r
   | s, .scall k rr cv d :: r =>
